@@ -10,7 +10,15 @@
      ever appended to by constructrobdd;
    - expression_tree.epsilon / named_variables / debug_print (tools/legalfloor/expression_tree.py:10-43):
      Model.define_time overwrites epsilon before anything reads it; named_variables is never written;
-     debug_print is written only by turn_on_flag/turn_off_flag (main), never by Model construction.
+     debug_print is written only by turn_on_flag/turn_off_flag (main), never by Model construction;
+   - the objects created once, when the `def` is evaluated, for the default arguments
+     Ineq.__init__(lhs=Expr(), rhs=Expr()) (tools/rect/pseudobool.py:257) and
+     Strop.__init__(height=list(), width=list()) (tools/floorset_parser/floor_set_manager/strop.py:108-109):
+     every call that omits the argument reads the SAME object; the code only reads them (lhs - rhs builds a new
+     expression, height[:] copies), so they keep their import-time value - the invariant [dflt_pristine].
+   Not state of the library (audited with tools/stateaudit.py, see DESIGN): Die, Netlist, Allocation, read_yaml,
+   create_stog and SATManager keep no class- or module-level table; their models are functions of their arguments
+   and of the fields above only, which is exactly the claim a memo table keyed too coarsely would break.
 
    Every library operation is  op : gstate -> input -> gstate * output , a wrapper around the existing models
    (Yaml/NetlistRead.v, Die/DieModel.v, Alloc/Alloc.v, PB/Sat.v) that reads its tolerances / store from the state
@@ -22,6 +30,7 @@
 From Coq Require Import ZArith List Bool String.
 From FrameModel Require Import Num.QcTac Geometry.Rect Stog.CreateStog PB.Expr PB.Cnf PB.Amo PB.Robdd PB.Codify PB.Sat.
 From FrameModel Require Alloc.Alloc Die.Boundaries Die.Cells Die.Cover Die.DieModel Yaml.Tree Yaml.NetlistRead.
+From FrameModel Require Strop.Strop.
 Import ListNotations.
 Open Scope Qc_scope.
 
@@ -30,6 +39,7 @@ Module DB := FrameModel.Die.Boundaries.
 Module DM := FrameModel.Die.DieModel.
 Module YT := FrameModel.Yaml.Tree.
 Module NR := FrameModel.Yaml.NetlistRead.
+Module SP := FrameModel.Strop.Strop.
 
 (* ------------------------------------------------------------------ *)
 (* the state                                                           *)
@@ -39,17 +49,68 @@ Record leg_state := mkLeg {
   named_vars : list string;            (* expression_tree.named_variables: never written *)
   debug_mask : Z }.                    (* expression_tree.debug_print *)
 
+(* the objects bound to default arguments at definition time *)
+Record dflt_state := mkD {
+  d_ineq_lhs : expr;                   (* Ineq.__init__: lhs = Expr() *)
+  d_ineq_rhs : expr;                   (* Ineq.__init__: rhs = Expr() *)
+  d_strop_h : list Qc;                 (* Strop.__init__: height = list() *)
+  d_strop_w : list Qc }.               (* Strop.__init__: width = list() *)
+Definition dflt_init : dflt_state := mkD zero zero [] [].
+
 Record gstate := mkG {
   g_eps : option (Qc * Qc);            (* None = undefined; Some (distance epsilon, area epsilon) *)
   g_mem : memory;                      (* pseudobool.memory[2:] (mmap agrees with it) *)
-  g_leg : leg_state }.
+  g_leg : leg_state;
+  g_dflt : dflt_state }.
 
 (* the state of a fresh interpreter after importing the modules *)
-Definition s_init : gstate := mkG None [] (mkLeg None [] 255).
+Definition s_init : gstate := mkG None [] (mkLeg None [] 255) dflt_init.
 
-Definition with_eps (s : gstate) (e : option (Qc * Qc)) : gstate := mkG e (g_mem s) (g_leg s).
-Definition with_mem (s : gstate) (m : memory) : gstate := mkG (g_eps s) m (g_leg s).
-Definition with_leg (s : gstate) (l : leg_state) : gstate := mkG (g_eps s) (g_mem s) l.
+Definition with_eps (s : gstate) (e : option (Qc * Qc)) : gstate := mkG e (g_mem s) (g_leg s) (g_dflt s).
+Definition with_mem (s : gstate) (m : memory) : gstate := mkG (g_eps s) m (g_leg s) (g_dflt s).
+Definition with_leg (s : gstate) (l : leg_state) : gstate := mkG (g_eps s) (g_mem s) l (g_dflt s).
+
+(* ---- objects built from default arguments (no Section variable needed) ---- *)
+(* one step of a caller: Ineq(lhs?, rhs?, op) observed; Expr() observed (and then changed by the caller);
+   Ineq() whose expression the caller then changes in place (q.lhs.c = 5; q.lhs = q.lhs + Literal) *)
+Inductive dstep :=
+| DIneq (l r : option tree) (op : cmp)
+| DExpr
+| DUse.
+Inductive dout := DOIneq (i : ineq) | DOExpr (e : expr).
+Definition arg_or (o : option tree) (dflt : expr) : expr := match o with Some t => build t | None => dflt end.
+(* Ineq.__init__: self.lhs = lhs - rhs is a NEW expression; self.lhs.c = 0 changes that new object only; the
+   caller's later changes (DUse, DExpr) reach objects created by the call, never the two default objects *)
+Definition dstep_run (d : dflt_state) (st : dstep) : dflt_state * list dout :=
+  match st with
+  | DIneq l r op => (d, [DOIneq (mk_ineq (arg_or l (d_ineq_lhs d)) (arg_or r (d_ineq_rhs d)) op)])
+  | DExpr => (d, [DOExpr zero])
+  | DUse => (d, [])
+  end.
+Fixpoint dsteps_run (d : dflt_state) (l : list dstep) : dflt_state * list dout :=
+  match l with
+  | [] => (d, [])
+  | st :: r => let (d1, o1) := dstep_run d st in let (d2, o2) := dsteps_run d1 r in (d2, o1 ++ o2)
+  end.
+
+(* Strop(matrix, height?, width?): `assert len(height) == 0 or len(height) == nrows`,
+   `self._height = height[:] if len(height) > 0 else [1] * nrows` (a copy: the default list is never written) *)
+Definition strop_sizes (given : option (list Qc)) (dflt : list Qc) (n : nat) : option (list Qc) :=
+  let h := match given with Some l => l | None => dflt end in
+  match h with
+  | [] => Some (repeat 1 n)
+  | _ => if Nat.eqb (List.length h) n then Some h else None
+  end.
+Definition strop_out := option (list SP.Inst * bool * list Qc * list Qc).
+Definition strop_run (d : dflt_state) (M : SP.BoolMatrix) (h w : option (list Qc)) : strop_out :=
+  match SP.strop M with
+  | None => None
+  | Some insts =>
+      match strop_sizes h (d_strop_h d) (SP.nrows M), strop_sizes w (d_strop_w d) (SP.ncols M) with
+      | Some hh, Some ww => Some (insts, SP.is_strop M, hh, ww)
+      | _, _ => None
+      end
+  end.
 
 Definition tiny : Qc := qc 1 1000000000000.          (* 1e-12 *)
 Definition die_tiny : Qc := qc 1 100000000000.       (* 10e-12 *)
@@ -142,20 +203,30 @@ Definition op_sat (s : gstate) (ps : list post) : gstate * option (cnf * list st
 Definition op_legal (s : gstate) (x : leg_input) : gstate * leg_output :=
   (with_leg s (mkLeg (Some (leg_params x)) (named_vars (g_leg s)) (debug_mask (g_leg s))), leg_build x).
 
+(* ---- callers relying on default arguments; Strop ---- *)
+Definition op_defaults (s : gstate) (l : list dstep) : gstate * list dout :=
+  let (d, o) := dsteps_run (g_dflt s) l in (mkG (g_eps s) (g_mem s) (g_leg s) d, o).
+Definition op_strop (s : gstate) (M : SP.BoolMatrix) (h w : option (list Qc)) : gstate * strop_out :=
+  (s, strop_run (g_dflt s) M h w).
+
 (* ---- operations and their results ---- *)
 Inductive opn :=
 | ONetlist (t : YT.ytree)
 | ODie (d : DM.desc)
 | OAlloc (q : Qc) (ops : list AL.op) (cells : list AL.cell)
 | OSat (ps : list post)
-| OLegal (x : leg_input).
+| OLegal (x : leg_input)
+| ODefaults (l : list dstep)
+| OStrop (M : SP.BoolMatrix) (h w : option (list Qc)).
 
 Inductive out :=
 | RNetlist (r : NR.result NR.netlist)
 | RDie (r : DM.result)
 | RAlloc (r : option (list AL.cell))
 | RSat (r : option (cnf * list status))
-| RLegal (r : leg_output).
+| RLegal (r : leg_output)
+| RDefaults (r : list dout)
+| RStrop (r : strop_out).
 
 Definition step (s : gstate) (o : opn) : gstate * out :=
   match o with
@@ -164,6 +235,8 @@ Definition step (s : gstate) (o : opn) : gstate * out :=
   | OAlloc q ops cells => let (s', r) := op_alloc s q ops cells in (s', RAlloc r)
   | OSat ps => let (s', r) := op_sat s ps in (s', RSat r)
   | OLegal x => let (s', r) := op_legal s x in (s', RLegal r)
+  | ODefaults l => let (s', r) := op_defaults s l in (s', RDefaults r)
+  | OStrop M h w => let (s', r) := op_strop s M h w in (s', RStrop r)
   end.
 
 Definition run (h : list opn) (s : gstate) : gstate := fold_left (fun s o => fst (step s o)) h s.
@@ -174,7 +247,7 @@ Definition op_cand (o : opn) : option Qc :=
   | ONetlist t => netlist_cand t
   | ODie d => die_cand d
   | OAlloc _ _ cells => alloc_cand cells
-  | OSat _ | OLegal _ => None
+  | OSat _ | OLegal _ | ODefaults _ | OStrop _ _ _ => None
   end.
 
 (* ---- what a caller can observe of a result ---- *)
@@ -199,6 +272,8 @@ Definition obs_equiv (a b : out) : Prop :=
   | RAlloc x, RAlloc y => x = y
   | RSat x, RSat y => sat_equiv x y
   | RLegal x, RLegal y => x = y
+  | RDefaults x, RDefaults y => x = y
+  | RStrop x, RStrop y => x = y
   | _, _ => False
   end.
 
